@@ -1,0 +1,99 @@
+//! Verification hook, compiled only with `--cfg stylua_verif`.
+//!
+//! `SchedAtomicI32` has the API of `AtomicI32` but makes every operation a scheduling point: the environment variable
+//! `STYLUA_VERIF_SCHED` holds a comma separated list of thread roles (`M` = the main thread, `O` = any other thread);
+//! the i-th operation on the cell has to be performed by a thread of the i-th role. A thread whose role does not match
+//! the current turn blocks until it does (or until a timeout expires, so that an infeasible script cannot deadlock).
+//! Once the script is exhausted operations run freely.
+use std::sync::atomic::{AtomicI32, Ordering};
+use std::sync::{Condvar, Mutex, OnceLock};
+use std::time::Duration;
+
+struct Sched {
+    script: Vec<char>,
+    turn: Mutex<usize>,
+    cv: Condvar,
+}
+
+fn sched() -> &'static Sched {
+    static S: OnceLock<Sched> = OnceLock::new();
+    S.get_or_init(|| Sched {
+        script: std::env::var("STYLUA_VERIF_SCHED")
+            .unwrap_or_default()
+            .split(',')
+            .filter_map(|s| s.trim().chars().next())
+            .collect(),
+        turn: Mutex::new(0),
+        cv: Condvar::new(),
+    })
+}
+
+fn role() -> char {
+    if std::thread::current().name() == Some("main") {
+        'M'
+    } else {
+        'O'
+    }
+}
+
+fn scheduled<T>(op: impl FnOnce() -> T) -> T {
+    let s = sched();
+    let me = role();
+    let mut turn = s.turn.lock().unwrap();
+    while *turn < s.script.len() && s.script[*turn] != me {
+        let (guard, timeout) = s.cv.wait_timeout(turn, Duration::from_secs(3)).unwrap();
+        turn = guard;
+        if timeout.timed_out() {
+            // infeasible script: give up scheduling
+            *turn = s.script.len();
+        }
+    }
+    let result = op();
+    if *turn < s.script.len() {
+        *turn += 1;
+    }
+    s.cv.notify_all();
+    result
+}
+
+pub struct SchedAtomicI32(AtomicI32);
+
+#[allow(dead_code)]
+impl SchedAtomicI32 {
+    pub const fn new(v: i32) -> Self {
+        Self(AtomicI32::new(v))
+    }
+    pub fn load(&self, o: Ordering) -> i32 {
+        scheduled(|| self.0.load(o))
+    }
+    pub fn store(&self, v: i32, o: Ordering) {
+        scheduled(|| self.0.store(v, o))
+    }
+    pub fn swap(&self, v: i32, o: Ordering) -> i32 {
+        scheduled(|| self.0.swap(v, o))
+    }
+    pub fn fetch_max(&self, v: i32, o: Ordering) -> i32 {
+        scheduled(|| self.0.fetch_max(v, o))
+    }
+    pub fn fetch_min(&self, v: i32, o: Ordering) -> i32 {
+        scheduled(|| self.0.fetch_min(v, o))
+    }
+    pub fn fetch_add(&self, v: i32, o: Ordering) -> i32 {
+        scheduled(|| self.0.fetch_add(v, o))
+    }
+    pub fn fetch_or(&self, v: i32, o: Ordering) -> i32 {
+        scheduled(|| self.0.fetch_or(v, o))
+    }
+    pub fn fetch_and(&self, v: i32, o: Ordering) -> i32 {
+        scheduled(|| self.0.fetch_and(v, o))
+    }
+    pub fn compare_exchange(&self, c: i32, n: i32, s: Ordering, f: Ordering) -> Result<i32, i32> {
+        scheduled(|| self.0.compare_exchange(c, n, s, f))
+    }
+    pub fn compare_exchange_weak(&self, c: i32, n: i32, s: Ordering, f: Ordering) -> Result<i32, i32> {
+        scheduled(|| self.0.compare_exchange(c, n, s, f))
+    }
+    pub fn fetch_update<F: FnMut(i32) -> Option<i32>>(&self, s: Ordering, f: Ordering, g: F) -> Result<i32, i32> {
+        scheduled(|| self.0.fetch_update(s, f, g))
+    }
+}
